@@ -970,11 +970,40 @@ def changed_roots(step):
         node = post.nodes.get(p)
         if node and node[0] == "ref" and pre.nodes.get(p, ("",))[0] != "ref" and root_of(node[1]) != root_of(p):
             alias_prefixes.append(p)
+    # the reverse, and re-targeted references: a node that *was* a reference into another root and now shows the object's
+    # own subtree (the other root let go of the shared object, e.g. its attribute was rebound), or now refers to a third
+    # root that took over the walk. If the subtree it resolves to is exactly what it resolved to before, the object
+    # itself is unchanged.
+    def subtree(snapshot, path, depth=0):
+        node = snapshot.nodes.get(path)
+        while node is not None and node[0] == "ref" and depth < 8:
+            path, node, depth = node[1], snapshot.nodes.get(node[1]), depth + 1
+        if node is None:
+            return None
+        pre_len = len(path)
+        inside = (path + ".", path + "[", path + "{", path + "<")
+
+        def rel(n):  # references that stay inside the subtree are compared by their relative position
+            if n[0] == "ref" and (n[1] == path or n[1].startswith(inside)):
+                return ("ref", "<subtree>" + n[1][pre_len:])
+            return n
+
+        return {q[pre_len:]: rel(n) for q, n in snapshot.nodes.items() if q == path or q.startswith(inside)}
+
+    unalias_prefixes = []
+    for p in changed:
+        a, b = pre.nodes.get(p), post.nodes.get(p)
+        if a and b and a[0] == "ref" and (b[0] != "ref" or b[1] != a[1]) and root_of(a[1]) != root_of(p):
+            sa, sb = subtree(pre, p), subtree(post, p)
+            if sa is not None and sa == sb:
+                unalias_prefixes.append(p)
     out = set()
     for p in changed:
-        if p in alias_prefixes:
+        if p in alias_prefixes or p in unalias_prefixes:
             continue
         if p not in post.nodes and any(p.startswith((a + ".", a + "[", a + "{", a + "<")) for a in alias_prefixes):
             continue  # below an aliased node: no longer walked from this root
+        if p not in pre.nodes and any(p.startswith((a + ".", a + "[", a + "{", a + "<")) for a in unalias_prefixes):
+            continue  # below a formerly aliased node: newly walked from this root, equal to what the other root showed
         out.add(root_of(p))
     return sorted(out)
